@@ -11,6 +11,7 @@ import Proofs.Lemmas.WbStatic
 import Proofs.Lemmas.WbLayout
 import Proofs.Lemmas.WbRound
 import Proofs.Lemmas.WbEnc
+import Proofs.Lemmas.DesRefine
 import Proofs.Lemmas.WbParity
 namespace Proofs.C18
 open Model Model.Wb Model.Bits Proofs.Lemmas.Wb
@@ -152,14 +153,13 @@ theorem wb_enc_eq_des (K M : List Nat) (hK : K.length = 8) : wbEnc K M = Des.enc
 theorem parity_bits_ignored (K K' : Bits) (h : ∀ i, i % 8 ≠ 7 → K.ival.testBit i = K'.ival.testBit i) (r : Nat) :
     tableRKT r K = tableRKT r K' := tableRKT_parity K K' h r
 
-/-
-  Corollary to be enabled by the integrator once Proofs.C02_Des (enc_refines : IsBytes K → IsBytes M →
-  res (Des.enc K M) = Spec.Des.enc K M) is in the same tree:
+/-- … and with C02 (Model.Des = FIPS 46-3, Proofs/Lemmas/DesRefine.lean): for EVERY 8-byte key and EVERY block the
+    table network evaluates to the FIPS 46-3 ciphertext (`none` = rejected, for a block that is not 8 bytes).
+    `IsBytes` = every element < 256, i.e. a Python bytes object. -/
+theorem wb_enc_eq_fips (K M : List Nat) (hK : K.length = 8) (hKb : IsBytes K) (hMb : IsBytes M) :
+    (wbEnc K M).toOption = Spec.Des.enc K M := by
+  rw [wb_enc_eq_des K M hK]; exact Des.enc_refines K M hKb hMb
 
-    theorem wb_enc_eq_fips (K M : List Nat) (hK : K.length = 8) (hKb : IsBytes K) (hMb : IsBytes M) :
-        res (wbEnc K M) = Spec.Des.enc K M := by
-      rw [wb_enc_eq_des K M hK]; exact Proofs.C02_Des.enc_refines K M hKb hMb
--/
 
 /-! ### non-vacuity: the statements above talk about tables that exist and are not trivial -/
 
